@@ -154,6 +154,12 @@ def scatter (n : Nat) (C : List Nat) (x : List α) : List α :=
     | some a => x.getD a 0
     | none => 0
 
+/-- run-time certificate that `C` is closed: no positive entry of a row in `C` lies outside `C`.
+    (The driver evaluates it on every class it reports; `QE.C02.stationaryDists_row` turns a
+    passed certificate into invariance of the reported row.) -/
+def closedB (n : Nat) (P : M α) (C : List Nat) : Bool :=
+  C.all fun c => (List.range n).all fun j => C.contains j || decide (P.get c j ≤ 0)
+
 /-- `MarkovChain(P).stationary_distributions` (core.py:386-408), rows ordered by the
     smallest state of the class (the code's order is SciPy's component labelling; the
     harness sorts the code's rows the same way). The irreducible branch (one class =
@@ -211,7 +217,8 @@ def handle (toks : List String) : String :=
           -- classes are decided in exact arithmetic; the Float rows use the same classes
           let df := dq.map fun (C, _) => scatter n C (gthSolve C.length (restrict Mf C))
           "cls=" ++ showMat toString (dq.map (·.1)) ++ " f=" ++ showMat showFloatBits df ++
-            " q=" ++ showMat showRat (dq.map (·.2))
+            " q=" ++ showMat showRat (dq.map (·.2)) ++
+            " closed=" ++ showBool (dq.all fun (C, _) => closedB n Mq C)
     | _, _, _ => "bad-op"
   | "classes" :: r =>
     match kvNat r "n", kvRatMat r "P" with
